@@ -110,6 +110,7 @@ class Decl:
         cut = r.randint(1, n_if - 1) if levels == 2 else n_if
         base_ifs, derived_ifs = decl[:cut], decl[cut:]
         self.redeclared = None
+        self.overridden = None
         if levels == 2 and r.random() < 0.3:
             # the derived class declares an interface NAME of its base class again, with other members / signatures: the
             # most derived declaration of a name is the object's interface of that name
@@ -172,6 +173,18 @@ class Decl:
                         impl_id = '%s.%s' % (cname, fname)
                         attrs[fname] = O.dbusMethod(n, m)(make_impl(fname, impl_id, nargs, wants))
                         self.impl[(n, m)] = (impl_id, wants)
+            if base is not O.DBusObject and not self.redeclared and r.random() < 0.5:
+                # the derived class overrides an implementation that the base class bound with @dbusMethod, under the same
+                # function name and WITHOUT repeating the decorator: ordinary method overriding - the override runs
+                for (n0, m0), (impl0, wants0) in sorted(self.impl.items()):
+                    f0 = impl0.split('.', 1)[1] if impl0 else None
+                    if impl0 and impl0.startswith('Base') and f0.startswith('impl_') and f0 not in attrs:
+                        nargs0 = len(G.split_signature(dict(base_ifs).get(n0, {}).get(m0, ('',))[0]))
+                        impl_id = '%s.%s(override)' % (cname, f0)
+                        attrs[f0] = make_impl(f0, impl_id, nargs0, wants0)
+                        self.impl[(n0, m0)] = (impl_id, wants0)
+                        self.overridden = (n0, m0)
+                        break
             if base is not O.DBusObject:
                 for fname, n, m, nargs, wants in moved:
                     impl_id = '%s.%s' % (cname, fname)
